@@ -35,14 +35,15 @@ type Program struct {
 	SSAPkg  map[string]*ssa.Package
 	AllFns  map[*ssa.Function]bool
 
-	cg       *callgraph.Graph
-	reachMem map[string]map[*ssa.Function]bool
-	callSites   map[*ssa.Function][]*ssa.Call // direct call sites by callee (directCallSites)
-	usedAsValue map[*ssa.Function]bool
-	constMaps   map[string]map[string]aval // allConstMaps
-	anchors     *anchorDB                  // fingerprints.go
-	aliasMap    map[string][]string        // keyAliases
-	LoadS    float64
+	cg           *callgraph.Graph
+	reachMem     map[string]map[*ssa.Function]bool
+	callSites    map[*ssa.Function][]*ssa.Call // direct call sites by callee (directCallSites)
+	usedAsValue  map[*ssa.Function]bool
+	constMaps    map[string]map[string]aval // allConstMaps
+	anchors      *anchorDB                  // fingerprints.go
+	aliasMap     map[string][]string        // keyAliases
+	constGlobals map[*ssa.Global]*aval      // constGlobalValue
+	LoadS        float64
 }
 
 func repoDir() string {
@@ -510,8 +511,8 @@ func instantiationOverlay(repo string) map[string][]byte {
 	c := "package extension\n\nimport fpsadtpb \"github.com/google/fhir/go/proto/google/fhir/proto/r4/core/datatypes_go_proto\"\n\nvar fpsaInstances = [...]any{SetByURL[*fpsadtpb.String]}\n"
 	return map[string][]byte{
 		filepath.Join(repo, "internal", "element", "extension", "zz_fpsa_instances.go"): []byte(c),
-		filepath.Join(repo, "internal", "narrow", "zz_fpsa_instances.go"):   []byte(a.String()),
-		filepath.Join(repo, "internal", "fhirconv", "zz_fpsa_instances.go"): []byte(b.String()),
+		filepath.Join(repo, "internal", "narrow", "zz_fpsa_instances.go"):               []byte(a.String()),
+		filepath.Join(repo, "internal", "fhirconv", "zz_fpsa_instances.go"):             []byte(b.String()),
 	}
 }
 
